@@ -257,22 +257,17 @@ impl FixtureDatabase {
         let mut modules = Vec::new();
 
         for stmt in module_level_statements(stmts) {
+            let is_pytest_plugins =
+                |target: &Expr| matches!(target, Expr::Name(name) if name.id.as_str() == "pytest_plugins");
             let value = match stmt {
                 Stmt::Assign(assign) => {
-                    let is_pytest_plugins = assign.targets.iter().any(|target| {
-                        matches!(target, Expr::Name(name) if name.id.as_str() == "pytest_plugins")
-                    });
-                    if !is_pytest_plugins {
+                    if !assign.targets.iter().any(is_pytest_plugins) {
                         continue;
                     }
                     assign.value.as_ref()
                 }
                 Stmt::AnnAssign(ann_assign) => {
-                    let is_pytest_plugins = matches!(
-                        ann_assign.target.as_ref(),
-                        Expr::Name(name) if name.id.as_str() == "pytest_plugins"
-                    );
-                    if !is_pytest_plugins {
+                    if !is_pytest_plugins(ann_assign.target.as_ref()) {
                         continue;
                     }
                     match ann_assign.value.as_ref() {
@@ -280,43 +275,71 @@ impl FixtureDatabase {
                         None => continue,
                     }
                 }
+                // `pytest_plugins += [...]` adds to what was assigned before
+                Stmt::AugAssign(aug_assign)
+                    if is_pytest_plugins(aug_assign.target.as_ref())
+                        && matches!(aug_assign.op, rustpython_parser::ast::Operator::Add) =>
+                {
+                    Self::collect_plugin_names(aug_assign.value.as_ref(), &mut modules);
+                    continue;
+                }
                 _ => continue,
             };
 
             // Last assignment wins: clear previous values
             modules.clear();
-
-            match value {
-                Expr::Constant(c) => {
-                    if let rustpython_parser::ast::Constant::Str(s) = &c.value {
-                        modules.push(s.to_string());
-                    }
-                }
-                Expr::List(list) => {
-                    for elt in &list.elts {
-                        if let Expr::Constant(c) = elt {
-                            if let rustpython_parser::ast::Constant::Str(s) = &c.value {
-                                modules.push(s.to_string());
-                            }
-                        }
-                    }
-                }
-                Expr::Tuple(tuple) => {
-                    for elt in &tuple.elts {
-                        if let Expr::Constant(c) = elt {
-                            if let rustpython_parser::ast::Constant::Str(s) = &c.value {
-                                modules.push(s.to_string());
-                            }
-                        }
-                    }
-                }
-                _ => {
-                    debug!("Ignoring dynamic pytest_plugins value (not a string/list/tuple)");
-                }
-            }
+            Self::collect_plugin_names(value, &mut modules);
         }
 
         modules
+    }
+
+    /// The module names a `pytest_plugins` value spells out: a string (pytest splits it at
+    /// commas), a list or tuple of strings, or such values joined with `+`. Anything that
+    /// would have to be evaluated is ignored.
+    fn collect_plugin_names(value: &Expr, modules: &mut Vec<String>) {
+        match value {
+            Expr::Constant(c) => {
+                if let rustpython_parser::ast::Constant::Str(s) = &c.value {
+                    modules.extend(
+                        s.split(',')
+                            .map(str::trim)
+                            .filter(|name| !name.is_empty())
+                            .map(str::to_string),
+                    );
+                }
+            }
+            Expr::List(list) => {
+                for elt in &list.elts {
+                    if let Expr::Constant(c) = elt {
+                        if let rustpython_parser::ast::Constant::Str(s) = &c.value {
+                            modules.push(s.to_string());
+                        }
+                    }
+                }
+            }
+            Expr::Tuple(tuple) => {
+                for elt in &tuple.elts {
+                    if let Expr::Constant(c) = elt {
+                        if let rustpython_parser::ast::Constant::Str(s) = &c.value {
+                            modules.push(s.to_string());
+                        }
+                    }
+                }
+            }
+            // (of lists and tuples: two strings joined with `+` are one string)
+            Expr::BinOp(bin_op)
+                if matches!(bin_op.op, rustpython_parser::ast::Operator::Add)
+                    && !matches!(bin_op.left.as_ref(), Expr::Constant(_))
+                    && !matches!(bin_op.right.as_ref(), Expr::Constant(_)) =>
+            {
+                Self::collect_plugin_names(bin_op.left.as_ref(), modules);
+                Self::collect_plugin_names(bin_op.right.as_ref(), modules);
+            }
+            _ => {
+                debug!("Ignoring dynamic pytest_plugins value (not a string/list/tuple)");
+            }
+        }
     }
 
     /// Check if a module is a standard library module that can't contain fixtures.
